@@ -5,6 +5,7 @@ import (
 	"encoding/json"
 	"fmt"
 	"reflect"
+	"regexp"
 	"strings"
 
 	"github.com/formancehq/stack/libs/go-libs/bun/bunpaginate"
@@ -71,6 +72,18 @@ func count(s *Store, ctx context.Context, builders ...func(query *bun.SelectQuer
 	return s.bucket.db.NewSelect().
 		TableExpr("(" + query.String() + ") data").
 		Count(ctx)
+}
+
+// addressFilterRegexp is what an account address pattern may look like in a
+// filter: account segments (possibly empty, as wildcards) separated by colons.
+// Patterns are rendered into the SQL text, so nothing else may get through.
+var addressFilterRegexp = regexp.MustCompile(`^[a-zA-Z0-9_-]*(:[a-zA-Z0-9_-]*)*$`)
+
+func validateAddressFilter(address string) error {
+	if !addressFilterRegexp.MatchString(address) {
+		return newErrInvalidQuery("invalid account address pattern")
+	}
+	return nil
 }
 
 func filterAccountAddress(address, key string) string {
